@@ -1088,17 +1088,17 @@ theorem visitStmts_ext {st st' : CState} {ss : List Stmt} {c : Code} (h : visitS
         exact (visitStmt_ext h1).trans (ih h2)
 
 /-- the tables of a compiler state are well-formed -/
-structure Good (st : CState) : Prop where
+structure GoodSt (st : CState) : Prop where
   wf : WFres st.resources
   wfn : WFneeded st.resources st.needed
 
-theorem Ext.good {st st' : CState} (h : Ext st st') (g : Good st) : Good st' := ⟨h.wf g.wf, h.wfn g.wfn⟩
+theorem Ext.good {st st' : CState} (h : Ext st st') (g : GoodSt st) : GoodSt st' := ⟨h.wf g.wf, h.wfn g.wfn⟩
 
-theorem good_init : Good {} := ⟨by intro i r h; simp at h, by intro e he; simp at he⟩
+theorem good_init : GoodSt {} := ⟨by intro i r h; simp at h, by intro e he; simp at he⟩
 
 /-- appending one more resource whose inner addresses are fine -/
-theorem allocRes_good {st st' : CState} {r : Resource} {a : Addr} (g : Good st) (hr : ResOK st.resources r)
-    (hnc : ∀ v, r ≠ .const v) (h : allocRes st r = .ok (a, st')) : Good st' ∧ st'.needed = st.needed := by
+theorem allocRes_good {st st' : CState} {r : Resource} {a : Addr} (g : GoodSt st) (hr : ResOK st.resources r)
+    (hnc : ∀ v, r ≠ .const v) (h : allocRes st r = .ok (a, st')) : GoodSt st' ∧ st'.needed = st.needed := by
   have happ : appendResource st r = .ok (a, st') := by
     unfold allocRes at h
     cases r with
@@ -1110,7 +1110,7 @@ theorem allocRes_good {st st' : CState} {r : Resource} {a : Addr} (g : Good st) 
   obtain ⟨_, rfl⟩ := appendResource_ok happ
   exact ⟨⟨g.wf.append_one hr, g.wfn.append _⟩, rfl⟩
 
-theorem visitVar_good {st st' : CState} {d : VarDecl} (g : Good st) (h : visitVar st d = .ok st') : Good st' := by
+theorem visitVar_good {st st' : CState} {d : VarDecl} (g : GoodSt st) (h : visitVar st d = .ok st') : GoodSt st' := by
   unfold visitVar at h
   split at h
   · cases h
@@ -1119,7 +1119,7 @@ theorem visitVar_good {st st' : CState} {d : VarDecl} (g : Good st) (h : visitVa
     · cases h
     · rename_i addr st1 hr
       simp only [Except.ok.injEq] at h; subst h
-      suffices Good st1 from ⟨this.wf, this.wfn⟩
+      suffices GoodSt st1 from ⟨this.wf, this.wfn⟩
       cases ho : d.origin with
       | none =>
         simp only [ho] at hr
@@ -1145,7 +1145,7 @@ theorem visitVar_good {st st' : CState} {d : VarDecl} (g : Good st) (h : visitVa
               obtain ⟨e2, t2⟩ := visitTyped_ok hs
               exact (allocRes_good (r := .varBalance d.name a s) (e2.good (e1.good g)) ⟨e2.hasTy t1, t2⟩ (by intro v hv; cases hv) hr).1
 
-theorem visitVarList_good {st st' : CState} {ds : List VarDecl} (g : Good st) (h : visitVarList st ds = .ok st') : Good st' := by
+theorem visitVarList_good {st st' : CState} {ds : List VarDecl} (g : GoodSt st) (h : visitVarList st ds = .ok st') : GoodSt st' := by
   induction ds generalizing st with
   | nil => simp only [visitVarList, Except.ok.injEq] at h; subst h; exact g
   | cons d rest ih =>
@@ -1167,7 +1167,7 @@ theorem compile_good {P : Script} {prog : Program} (h : compile P = .ok prog) :
     · cases h
     · rename_i code st h1
       simp only [Except.ok.injEq] at h; subst h
-      have g0 : Good st0 := by
+      have g0 : GoodSt st0 := by
         unfold visitVars at h0
         split at h0
         · cases h0
